@@ -12,6 +12,7 @@ Props/C09.lean.
 -/
 import PagexmlModel.Basic.Err
 import PagexmlModel.Model.C03
+import PagexmlModel.Generated.C09
 
 namespace Pagexml.C09
 open Pagexml.C03 (Pt Coords mkCoords)
@@ -107,9 +108,15 @@ def collinearExtremes : List Pt → Res (Option (List Pt))
       .ok (some (if first = last then [first] else [first, last]))
     else .ok none
 
+/-- `N` of `if len(points) <= N: return Coords(points)` in coords_list_to_hull_coords (regenerated from the
+    source on every run, Generated/C09.lean; 2 at the time of writing) -/
+def smallHull : Nat := Generated.C09.hullAsGivenMax
+/-- `N` of `if len(points) <= N or …: return 0` in poly_area (regenerated; 2 at the time of writing) -/
+def smallArea : Nat := Generated.C09.areaZeroMax
+
 def coordsListToHullCoords (he : HullEdges) (cl : List (List Pt)) : Res Coords :=
   let points := cl.flatten
-  if points.length ≤ 2 then coordsOf points
+  if points.length ≤ smallHull then coordsOf points
   else do
     match ← collinearExtremes points with
     | some extremes => coordsOf extremes
@@ -159,7 +166,7 @@ def area2 (vs : List Pt) : Int := ((shoelace vs).natAbs : Int)
 
 /-- `2 * poly_area(points)` for a list of points -/
 def polyArea2 (he : HullEdges) (pts : List Pt) : Res Int :=
-  if pts.length ≤ 2 then .ok 0
+  if pts.length ≤ smallArea then .ok 0
   else do
     match ← collinearExtremes pts with
     | some _ => .ok 0
